@@ -174,6 +174,71 @@ static void handler(vh::Reader& r, vh::Out& o)
 		for(long k = 0; k < m; k++)
 			o.f((ss[k] + bs[k]) >= 0 ? PMF_Poisson(ss[k] + bs[k], ns[k]) : std::nan(""));
 	}
+	else if(op == "liksess")
+	{
+		// a session: m requests of the likelihood family answered in order in one process; each answer must be the one the
+		// request gets alone.  L s n b | L0 s n (default background) | B S N Bg | B0 S N (overloads without background).
+		// All requests are read before the first call is made.
+		long m = r.integer();
+		struct Req
+		{
+			std::string kind;
+			double s, b;
+			long n;
+			std::vector<double> S, B;
+			std::vector<unsigned long> N;
+		};
+		std::vector<Req> qs;
+		for(long k = 0; k < m; k++)
+		{
+			Req q;
+			q.kind = r.word();
+			q.s = q.b = 0.0;
+			q.n		  = 0;
+			if(q.kind == "L" || q.kind == "L0")
+			{
+				q.s = r.num();
+				q.n = r.integer();
+				if(q.kind == "L")
+					q.b = r.num();
+			}
+			else
+			{
+				q.S					 = r.list();
+				std::vector<long> nl = r.ilist();
+				q.N.assign(nl.begin(), nl.end());
+				if(q.kind == "B")
+					q.B = r.list();
+			}
+			qs.push_back(q);
+		}
+		for(auto& q : qs)
+		{
+			if(q.kind == "L")
+			{
+				o.f(Log_Likelihood_Poisson(q.s, q.n, q.b));
+				o.f(Likelihood_Poisson(q.s, q.n, q.b));
+			}
+			else if(q.kind == "L0")
+			{
+				o.f(Log_Likelihood_Poisson(q.s, q.n));
+				o.f(Likelihood_Poisson(q.s, q.n));
+			}
+			else if(q.kind == "B")
+			{
+				o.f(Log_Likelihood_Poisson_Binned(q.S, q.N, q.B));
+				o.f(Likelihood_Poisson_Binned(q.S, q.N, q.B));
+			}
+			else if(q.kind == "B0")
+			{
+				o.f(Log_Likelihood_Poisson_Binned(q.S, q.N));
+				o.f(Likelihood_Poisson_Binned(q.S, q.N));
+			}
+			else
+				o.w("HARNESSERR liksess_request");
+		}
+		o.w("|");
+	}
 	else if(op == "binned" || op == "binned0")
 	{
 		std::vector<double> s = r.list();
